@@ -392,7 +392,7 @@ pub fn run(ctx: &Ctx) {
     );
     ctx.assume("value faults are drawn from boundary menus ({00,01,7F,80,FF,b+-1,b^80}, {0,1,7FFF,8000,FFFF,v+-1}, {0,1,7FFFFFFF,80000000,FFFFFFFF,v+-1,len,len+-1}), not all 2^8/2^16/2^32 values");
     ctx.assume("quick: 15 representative fixture seeds + synthetic seeds, positions restricted to the directory and the first 64 bytes of every table; thorough: every fixture <= 8 KB at every position, larger ones at table heads");
-    ctx.assume(&format!("per-case watchdog {} ms (confirmed alone with a doubled budget), allocation cap 256 MiB + 4096 x input length", WATCHDOG_MS));
+    ctx.assume(&format!("per-case watchdog {} ms of process CPU time (wall-clock fallback 30x; confirmed alone with a doubled budget), allocation cap 256 MiB + 4096 x input length", WATCHDOG_MS));
     let all = seeds(tier);
     let cap = if ctx.tier.thorough() { 1500.0 } else { 40.0 };
     sweep(ctx, "C01", "c01-worker", &all, tier, cap);
